@@ -132,6 +132,22 @@ def families(tier):
         for a in (num(0), num(1), num(2), ('lit', '2.5', 2.5), ('un', '-', num(1)), ('un', '-', ('lit', '2.5', 2.5)), x):
             t = ('call', f, (a,))
             out.append(('bin', '=', t, TRUE) if f == 'bool' else ('bin', '<', t, y))
+    # F8: a compound operand next to its own negation (the "obvious negatives" shortcuts on non-atomic operands)
+    bcores = [('bin', 'and', p, q), ('bin', 'or', p, q), ('bin', '>', x, num(0)), ('bin', 'implies', p, q), ('un', 'not', p), ('bin', '=', x, y), ('bin', 'in', x, tf('xs'))]
+    for c in bcores:
+        n = ('un', 'not', c)
+        for op in ('and', 'or', 'iff', 'implies', '=', '!='):
+            out.append(('bin', op, c, n))
+            out.append(('bin', op, n, c))
+            out.append(('bin', op, c, c))
+    ncores = [('bin', '+', x, num(1)), ('bin', '*', x, y), ('bin', '-', x, y), ('un', '-', x), ('call', 'abs', (x,)), ('bin', '/', x, num(2)), ('bin', '**', x, num(2))]
+    for c in ncores:
+        n = ('un', '-', c)
+        for op in ('+', '-', '*', '/', '=', '!=', '<', '>='):
+            rel = op in ('=', '!=', '<', '>=')
+            for a, b_ in ((c, n), (n, c), (c, c)):
+                t = ('bin', op, a, b_)
+                out.append(t if rel else ('bin', '=', t, y))
     # dedupe, keep order
     seen = set()
     res = []
@@ -161,6 +177,7 @@ def plan(tier):
     nf = len(families(tier))
     for k in range(NSHARD):
         units.append(('family', tier, k, NSHARD))
+    units.append(('api-predicates', tier))
     return units
 
 
@@ -500,6 +517,32 @@ def run(unit):
             _process(t, sort, tier, r)
             if i % 5003 == 0:
                 r.sample({'term': absyn.expr_text(t), 'nodes': n})
+    elif unit[0] == 'api-predicates':
+        import hpl.ast as A
+        from hpl.rewrite import simplify
+
+        cases = [
+            ('HplPredicateExpression(True)', lambda: A.HplPredicateExpression(A.HplLiteral.true()), 'ptrue'),
+            ('HplPredicateExpression(False)', lambda: A.HplPredicateExpression(A.HplLiteral.false()), 'pfalse'),
+            ('{ @flag } with @flag := False', lambda: impl.parser('pred').parse('{ @flag }').replace_var_reference('flag', A.HplLiteral.false()), 'pfalse'),
+            ('{ @flag } with @flag := True', lambda: impl.parser('pred').parse('{ @flag }').replace_var_reference('flag', A.HplLiteral.true()), 'ptrue'),
+            ('{ not @flag } with @flag := True', lambda: impl.parser('pred').parse('{ not @flag }').replace_var_reference('flag', A.HplLiteral.true()), 'pfalse'),
+            ('{ p }.but(expression=True)', lambda: impl.parser('pred').parse('{ p }').but(expression=A.HplLiteral.true()), 'ptrue'),
+            ('negate of HplPredicateExpression(True)', lambda: A.HplPredicateExpression(A.HplLiteral.true()).negate(), 'pfalse'),
+        ]
+        for label, make, want in cases:
+            r.count('evaluations')
+            r.count('states')
+            r.count('transitions')
+            try:
+                res = simplify(make())
+                got = absyn.lift(res)[0]
+            except Exception as e:  # noqa: BLE001
+                got = 'raised ' + type(e).__name__
+            r.outcomes['api-predicate:' + str(got)] += 1
+            if got != want:
+                r.violation('predicate: a literal condition does not become the vacuous predicate [built through the API]', {'api_predicate': label}, f'simplify({label}) gave {got}, expected {want}', size=len(label))
+        r.count('validated', len(cases))
     else:
         _, tier, k, shards = unit
         fam = families(tier)
@@ -513,6 +556,8 @@ def run(unit):
 
 
 def replay(w):
+    if 'api_predicate' in w:
+        return [{'sig': v['sig'], 'detail': v['detail']} for v in run(('api-predicates', 'quick')).violations]
     t = _detuple(w['term'])
     out = []
     for tier in ('thorough',):
@@ -530,7 +575,7 @@ def _detuple(x):
 def describe(tier):
     b = bounds(tier)
     return {
-        'rule': f"every Bool/Num term with <= {b['nodes']} nodes over fields x y @A.x p q xs, literals 0 1 2 True False, all 16 binary and 2 unary operators, abs, sets (1-3 elements), ranges (4 bracket forms), both quantifiers over arrays/sets/ranges, plus 7 shape-directed families (aggregates over sets/ranges, regrouping chains, comparison-with-own-operand, nested equalities, duplicate-member chains, foldable sets, numeric function folding); each x all valuations over numbers {{-1,0,1,2}}, booleans, arrays {{[],[0],[1,2],[1,1]}}; x set-iteration orders with <= {b['set_order_deviations']} deviating calls. A state = one term (distinct by construction); a transition = one real simplify call; validated = terms whose simplify result was compared with the reference evaluator on every valuation.",
+        'rule': f"every Bool/Num term with <= {b['nodes']} nodes over fields x y @A.x p q xs, literals 0 1 2 True False, all 16 binary and 2 unary operators, abs, sets (1-3 elements), ranges (4 bracket forms), both quantifiers over arrays/sets/ranges, plus 8 shape-directed families (aggregates over sets/ranges, regrouping chains, comparison-with-own-operand, nested equalities, duplicate-member chains, foldable sets, numeric function folding, a compound operand next to its own negation) and 7 API-built predicates with literal conditions; each x all valuations over numbers {{-1,0,1,2}}, booleans, arrays {{[],[0],[1,2],[1,1]}}; x set-iteration orders with <= {b['set_order_deviations']} deviating calls. A state = one term (distinct by construction); a transition = one real simplify call; validated = terms whose simplify result was compared with the reference evaluator on every valuation.",
         'bounds': b,
         'exhaustive': True,
         'assumptions': [
